@@ -65,5 +65,49 @@ def ident_part(rep, tier, coverage):
             "identifier_names": len(names), "identifier_uses": c[-1][1] if c else 0,
             "explanation": coverage["explanation"] + f"; identifier part: IdentMC enumerated {len(names)} names (all of <= {cfg['maxlen']} characters over {len(chars)} characters incl. upper case, blank, quote, $, dot, non-ASCII; reserved words and niladic functions in three spellings), each used as column, table and alias, compiled for 12 dialects: the identifier token must carry the name verbatim and be quoted where the specification requires, and SQLite must bind to the object of exactly that name (marker value)"}
 
+def let_clash_part(rep, tier, coverage):
+    """user tables named table_0 / table_1 together with let-bound sub-pipelines, nested pipelines and relation literals:
+    anonymous declarations are numbered before the tables of the query and must not take their names (F88)"""
+    from progs import from_, fromlit, join, eqcol, take, filter_, bin_, col, lit, select, item, append, sort, derive
+    import l1check
+    k = col("k")
+    def let(name, steps):
+        return {"kind": "let", "name": name, "short": name, "steps": steps, "params": [], "named": [], "body": {"t": "lit"}, "surface": "let", "module": ""}
+    L1 = fromlit(["k"], [[1], [2], [2]])
+    L3 = fromlit(["k", "_expr_0", "_expr_1"], [[1, 5, 6], [3, None, 0]])
+    # (the let-bound relation exposes each name once: a second `k` would make `==k` ambiguous)
+    inner = [
+        [from_("table_1"), take(1, 2), join("inner", [L1], eqcol("k"), alias="l"), select(item(col("k", "table_1")), item("_expr_0"))],
+        [from_("table_1"), select(item("k")), append([L1])],
+        [L1, join("left", [from_("table_1"), take(1, 2)], eqcol("k")), select(item(col("k", "table_1")), item("_expr_2"))],
+        [from_("table_1"), join("inner", [from_("table_0"), take(1, 2)], eqcol("k"), alias="z"), select(item(col("k", "z")), item(col("_expr_0", "table_1")), item("_expr_1"))],
+        [L3, filter_(bin_(">", k, lit(0)))],
+    ]
+    outer = [
+        lambda: [from_("table_0"), join("inner", [from_("foo")], eqcol("k"))],
+        lambda: [from_("table_0"), take(1, 2), join("left", [from_("foo")], eqcol("k"))],
+        lambda: [from_("foo"), join("inner", [from_("table_0")], eqcol("k"))],
+        lambda: [from_("table_0"), select(item("k")), append([from_("foo"), select(item("k"))]), sort(("asc", "k"))],
+        lambda: [from_("table_0"), join("inner", [from_("foo")], eqcol("k")), join("left", [from_("table_1")], bin_("==", col("k", "table_0"), col("k", "table_1")))],
+    ]
+    progs = []
+    for i, inn in enumerate(inner):
+        for j, mk in enumerate(outer):
+            progs.append({"id": f"lc{i}_{j}", "decl": True, "decls": [let("foo", inn)], "steps": mk()})
+            progs.append({"id": f"lc{i}_{j}b", "decl": True, "decls": [let("bar", [from_("table_1"), take(2, 3, True)]), let("foo", inn)], "steps": mk()})
+    def fix(st):
+        st.setdefault("at", [])
+        for key in ("with", "pipe"):
+            for x in st.get(key, []) or []:
+                fix(x)
+    for p in progs:
+        for st in p["steps"] + [x for d_ in p["decls"] for x in d_["steps"]]:
+            fix(st)
+    dbset = os.path.join(ROOT, "corpus", "dbs_clash.json")
+    res = l1check.run(rep, "C09-let", progs, dbset, l1props.CONFIG["C09"]["relevant"])
+    out = ident_part(rep, tier, coverage)
+    out["let_clash_family"] = {"programs": len(progs), "accepted": res["accepted"], "rejected": res["rejected"], "not_judged": res["skipped"]}
+    return out
+
 def check(tier):
-    return l1props.check("C09", tier, extra=ident_part)
+    return l1props.check("C09", tier, extra=let_clash_part)
